@@ -70,7 +70,7 @@ def gen(seed: int, tier: str) -> dict[str, Any]:
         if crowd and rng.random() < 0.6:
             base = unit * 60.0 * rng.choice([1, 1, 2, 3]) + rng.uniform(0.0, 2.0 * n)
         t = round(max(0.0, base), 6)
-        k = rng.choices(["conn", "state_tg", "cmd_tg", "remove", "add"], [3, 4, 4, 1, 1])[0]
+        k = rng.choices(["conn", "state_tg", "cmd_tg", "remove", "add", "reregister"], [3, 4, 4, 1, 1, 0.7])[0]
         op: dict[str, Any] = {"t": t, "op": k}
         if k == "conn":
             op["state"] = rng.choice(["CONNECTED", "DISCONNECTED", "CONNECTING"])
@@ -186,6 +186,14 @@ def run(plan: dict[str, Any]) -> dict[str, Any]:
                     registered[op["i"]] = False
                     log.append((now, "unregister", op["i"]))
                     R.extra_faults["unregister"] += 1
+            elif k == "reregister":
+                # the public, non-idempotent Device.register_state_updater() called for a registered device: the value's
+                # tracker is replaced (= unregistered and registered anew at this instant)
+                if registered[op["i"]]:
+                    log.append((now, "unregister", op["i"]))
+                    log.append((now, "register", op["i"]))
+                    devs[op["i"]].register_state_updater()
+                    R.extra_faults["registered_again"] += 1
             elif k == "add":
                 if not registered[op["i"]]:
                     xknx.devices.async_add(devs[op["i"]])
